@@ -146,7 +146,7 @@ def main():
             {"name": "W wire-sim", "path": "/verif/dst/src/wsim", "serves_properties": [p for p in ALL if p in CHECKS and "W" in CHECKS[p][1]], "kind_free_text": "real MessageCodec + FramedRead/FramedWrite over a scripted byte pipe"},
         ],
         "checks": checks,
-        "notes": "All checks are deterministic simulations driven by VERIF_SEED (default 20261002). Known findings: /verif/known_findings.json. See DESIGN.md.",
+        "notes": "All checks are deterministic simulations driven by VERIF_SEED (default 20261002). Known findings: /verif/known_findings.json. Seams outside /repo: vendored copies of quinn, quinn-proto (clock reads), tokio-stream (StreamMap seed counter) and tokio (seeded yield at lock/channel acquisitions) under /verif/vendor, patched into the harness workspace only; an entropy/wall-clock shim (dst/csrc/entropy.c). See DESIGN.md.",
         "not_applicable": [{"property_id": p, "reason": PENDING_REASON} for p in ALL if p not in CHECKS],
     }
     path = os.path.join(HERE, "MANIFEST.json")
